@@ -104,15 +104,31 @@ def tlc(module, cfg, extra=(), workers=None, timeout=600, ok_codes=(0,), cfg_tex
     return out, dt
 
 
-def tlc_modelcheck(module, cfg, timeout=900, workers=None, cfg_text=None):
-    """S1. Returns dict(states, transitions, wall_s, cmd). Spec |/= Props is a spec bug -> Inconclusive."""
-    out, dt = tlc(module, cfg, workers=workers, timeout=timeout, ok_codes=(0, 10, 11, 12, 13, 14), cfg_text=cfg_text)
+COV_RE = re.compile(r"^\s*\|*line (\d+), col (\d+) to line (\d+), col (\d+) of module (\w+): (\d+)\s*$")
+
+
+def tlc_modelcheck(module, cfg, timeout=900, workers=None, cfg_text=None, coverage=False):
+    """S1. Returns dict(states, transitions, wall_s, cmd). Spec |/= Props is a spec bug -> Inconclusive.
+    coverage=True adds `-coverage 1` and reports the expressions of the Spec modules that TLC never evaluated
+    (vacuity guard: a guard branch or effect that is never reached in the bounded model was never checked)."""
+    out, dt = tlc(module, cfg, workers=workers, timeout=timeout, ok_codes=(0, 10, 11, 12, 13, 14), cfg_text=cfg_text,
+                  extra=(["-coverage", "1"] if coverage else []))
     m = re.search(r"(\d+) states generated, (\d+) distinct states found", out)
     if "No error has been found" not in out or not m:
         tail = "\n".join(l for l in out.splitlines() if not l.startswith(("Parsing", "Semantic", "Linting")))[-3000:]
         raise Inconclusive("S1: TLC did not accept %s/%s (specification-level problem, not a verdict):\n%s" % (module, cfg, tail))
-    return dict(states=int(m.group(2)), transitions=int(m.group(1)), wall_s=round(dt, 1),
-                cmd="tlc -config %s %s" % (cfg, module), module=module, cfg=cfg)
+    res = dict(states=int(m.group(2)), transitions=int(m.group(1)), wall_s=round(dt, 1),
+               cmd="tlc -config %s %s" % (cfg, module), module=module, cfg=cfg)
+    if coverage:
+        last = {}
+        for line in out.splitlines():      # TLC prints cumulative coverage several times: keep the last count per site
+            c = COV_RE.match(line)
+            if c:
+                last[(c.group(5), int(c.group(1)), int(c.group(2)), int(c.group(3)), int(c.group(4)))] = int(c.group(6))
+        zero = sorted(k for k, v in last.items() if v == 0)
+        res["coverage"] = dict(sites=len(last), never_evaluated=len(zero),
+                               never_evaluated_sites=["%s:%d.%d-%d.%d" % k for k in zero[:40]])
+    return res
 
 
 def tlc_simulate(module, cfg, num, depth, seed, timeout=600, marker="SCEN ", cfg_text=None):
@@ -473,7 +489,11 @@ def run_family(F, pid, tier, seed, replay=None):
     nrand = 0
     if replay is None:
         for (module, c) in cfg.get("mc", []):
-            mc = tlc_modelcheck(module, c, timeout=cfg.get("mc_timeout", 900), workers=min(NCPU, 12))
+            mc = tlc_modelcheck(module, c, timeout=cfg.get("mc_timeout", 900), workers=min(NCPU, 12),
+                                coverage=(tier == "thorough" and os.environ.get("VERIF_S1_COVERAGE", "1") != "0"))
+            if "coverage" in mc:
+                log("S1 coverage %s/%s: %d of %d expression sites never evaluated" %
+                    (module, c, mc["coverage"]["never_evaluated"], mc["coverage"]["sites"]))
             log("S1 %s/%s: %d distinct states, %d generated, %.0fs" % (module, c, mc["states"], mc["transitions"], mc["wall_s"]))
             mcs.append(mc)
         if cfg.get("sim"):
